@@ -31,7 +31,7 @@ EXTENDS Naturals, Sequences, FiniteSets, TLC
 CONSTANTS MaxTicks, MaxReq, SecondCancel
 
 Uod == {"Short", "Long", "Forever", "OvA", "OvB"}
-Ctl == {"Start", "Stop", "Restart"}
+Ctl == {"Start", "Stop", "Restart", "Pause", "Unpause", "Hold", "Unhold"}
 Dur(n) == CASE n = "Short" -> 1 [] n = "Long" -> 4 [] n = "Forever" -> 0 [] OTHER -> 5     \* 0: never completes by itself
 Overlap(a, b) == {a, b} \subseteq {"OvA", "OvB"}          \* (also true for a = b, as in the code's overlap lists)
 
@@ -43,7 +43,7 @@ Fresh == [execL |-> <<>>,                          \* the current manager's cmd_
           made |-> [n \in Uod |-> 0],               \* instances created so far per name
           stop |-> NoCmd, restart |-> NoCmd,        \* the running Stop / Restart command (registry), its request and generator phase
           pend |-> 0,                               \* restart_request_pending of the current manager (a request id)
-          started |-> FALSE, stopping |-> FALSE, state |-> "Stopped",
+          started |-> FALSE, stopping |-> FALSE, paused |-> FALSE, holding |-> FALSE, state |-> "Stopped",
           nextRid |-> 1,
           hooks |-> <<>>,                           \* init / exec / finalize calls of the last tick, in order: <<hook, name, k>>
           acc |-> <<>>,                             \* which of the requests before the last tick were accepted
@@ -51,9 +51,15 @@ Fresh == [execL |-> <<>>,                          \* the current manager's cmd_
           bad |-> FALSE]                            \* a hook call broke the command protocol
 
 (* ---- validation of a request against the System State tag (Engine._validate_control_command) ---------------- *)
-Valid(name, state) == CASE name = "Start" -> state = "Stopped"
-                        [] name \in {"Stop", "Restart"} -> state \notin {"Stopped", "Restarting"}
-                        [] OTHER -> TRUE
+Valid(name, s) ==
+    LET live == s.state \notin {"Stopped", "Restarting"} IN
+    CASE name = "Start" -> s.state = "Stopped"
+      [] name \in {"Stop", "Restart"} -> live
+      [] name = "Pause" -> live /\ ~s.paused
+      [] name = "Unpause" -> live /\ s.paused
+      [] name = "Hold" -> live /\ ~s.holding
+      [] name = "Unhold" -> live /\ s.holding
+      [] OTHER -> TRUE
 
 (* ---- the loop state: st plus what the tick accumulates -------------------------------------------------------- *)
 \* a.done: requests marked done in this tick; a.swapped / a.newL: the manager was replaced, the new manager's list
@@ -103,13 +109,19 @@ ExecUod(a, L, c) ==
 (* the run ends: second half of Stop and of Restart; the command manager is replaced *)
 EndRun(a, L, src, newL) ==
     LET b == IF SecondCancel THEN CancelAllFrom(a, L, 1, src) ELSE a IN
-    [b EXCEPT !.started = FALSE, !.stopping = FALSE, !.state = "Stopped", !.swapped = TRUE, !.newL = newL, !.ended = TRUE]
+    [b EXCEPT !.started = FALSE, !.stopping = FALSE, !.paused = FALSE, !.holding = FALSE, !.state = "Stopped",
+              !.swapped = TRUE, !.newL = newL, !.ended = TRUE]
 
 (* _execute_internal_command(c) *)
 ExecCtl(a, L, c) ==
     CASE c.name = "Start" ->
             IF a.started THEN [a EXCEPT !.done = @ \cup {c.rid}]                            \* fails
-            ELSE [a EXCEPT !.started = TRUE, !.state = "Running", !.done = @ \cup {c.rid}]
+            ELSE [a EXCEPT !.started = TRUE, !.paused = FALSE, !.holding = FALSE, !.state = "Running", !.done = @ \cup {c.rid}]
+      \* the four (untimed) run-state commands complete in the tick in which they execute; none of them looks at `started`
+      [] c.name = "Pause" -> [a EXCEPT !.paused = TRUE, !.state = "Paused", !.done = @ \cup {c.rid}]
+      [] c.name = "Unpause" -> [a EXCEPT !.paused = FALSE, !.state = IF a.holding THEN "Holding" ELSE "Running", !.done = @ \cup {c.rid}]
+      [] c.name = "Hold" -> [a EXCEPT !.holding = TRUE, !.state = IF a.paused THEN @ ELSE "Holding", !.done = @ \cup {c.rid}]
+      [] c.name = "Unhold" -> [a EXCEPT !.holding = FALSE, !.state = IF a.paused THEN @ ELSE "Running", !.done = @ \cup {c.rid}]
       [] c.name = "Stop" ->
             IF a.stop.rid # 0
             THEN IF a.stop.rid # c.rid THEN [a EXCEPT !.done = @ \cup {c.rid}]             \* duplicate request dropped
@@ -123,7 +135,8 @@ ExecCtl(a, L, c) ==
             THEN IF a.restart.rid # c.rid THEN [a EXCEPT !.done = @ \cup {c.rid}]
                  ELSE IF a.restart.phase = 1
                  THEN [EndRun(a, L, "Restart", <<c>>) EXCEPT !.restart.phase = 2]
-                 ELSE [a EXCEPT !.started = TRUE, !.state = "Running", !.restart = NoCmd, !.done = @ \cup {c.rid}]
+                 ELSE [a EXCEPT !.started = TRUE, !.paused = FALSE, !.holding = FALSE, !.state = "Running", !.restart = NoCmd,
+                                !.done = @ \cup {c.rid}]
             ELSE LET p == [a EXCEPT !.pend = c.rid] IN               \* restart_request_pending is set when the command is created
                  IF a.state \in {"Stopped", "Restarting"} THEN [p EXCEPT !.done = @ \cup {c.rid}]     \* fails
                  ELSE [CancelAllFrom([p EXCEPT !.stopping = TRUE, !.state = "Restarting"], L, 1, "Restart")
@@ -139,7 +152,7 @@ RECURSIVE Accept(_, _, _)
 \* requests between two ticks: validated in order (the state does not change between them), accepted ones get a request id
 Accept(s, reqs, i) ==
     IF i > Len(reqs) THEN s
-    ELSE IF Valid(reqs[i], s.state)
+    ELSE IF Valid(reqs[i], s)
     THEN Accept([s EXCEPT !.execL = <<[rid |-> s.nextRid, name |-> reqs[i]]>> \o @, !.nextRid = @ + 1, !.acc = Append(@, TRUE)], reqs, i + 1)
     ELSE Accept([s EXCEPT !.acc = Append(@, FALSE)], reqs, i + 1)
 
@@ -149,12 +162,12 @@ TickTo(st, reqs) ==
     LET s0 == Accept([st EXCEPT !.acc = <<>>, !.hooks = <<>>, !.ended = FALSE], reqs, 1)
         L == s0.execL
         a0 == [inst |-> s0.inst, made |-> s0.made, stop |-> s0.stop, restart |-> s0.restart, pend |-> s0.pend, started |-> s0.started,
-               stopping |-> s0.stopping, state |-> s0.state, hooks |-> <<>>, done |-> {}, swapped |-> FALSE, newL |-> <<>>, ended |-> FALSE]
+               stopping |-> s0.stopping, paused |-> s0.paused, holding |-> s0.holding, state |-> s0.state, hooks |-> <<>>, done |-> {}, swapped |-> FALSE, newL |-> <<>>, ended |-> FALSE]
         a == Loop(a0, L, 1)
     IN [s0 EXCEPT !.execL = IF a.swapped THEN a.newL ELSE Keep(L, a.done),
                   !.inst = a.inst, !.made = a.made, !.stop = a.stop, !.restart = a.restart,
                   !.pend = IF a.swapped THEN 0 ELSE a.pend,        \* a new manager starts without a pending restart of its own
-                  !.started = a.started, !.stopping = a.stopping, !.state = a.state, !.hooks = a.hooks, !.ended = a.ended]
+                  !.started = a.started, !.stopping = a.stopping, !.paused = a.paused, !.holding = a.holding, !.state = a.state, !.hooks = a.hooks, !.ended = a.ended]
 
 (* ---- design check ------------------------------------------------------------------------------------------------ *)
 VARIABLES st, tickNo
@@ -183,5 +196,7 @@ HookOrder ==
         /\ h[1] = "exec" => Cardinality({j \in DOMAIN st.hooks : st.hooks[j] = h}) = 1        \* one execution per instance and tick
 (* C06 *)
 StoppedIffNoRun == (st.state = "Stopped") = ~st.started
+StateMatchesFlags == st.started => st.state \in {IF st.paused THEN "Paused" ELSE IF st.holding THEN "Holding" ELSE "Running", "Restarting"}
+FlagsOnlyInARun == ~st.started => ~st.paused /\ ~st.holding
 ControlCommandsEnd == st.stop.rid # 0 \/ st.restart.rid # 0 => st.started \/ st.restart.phase = 2
 =============================================================================
